@@ -18,6 +18,7 @@ mod c14;
 mod c15;
 mod c16;
 mod c17;
+mod c18;
 mod c19;
 mod c20;
 
@@ -47,6 +48,7 @@ fn dispatch(ctx: &Ctx, replay: Option<&serde_json::Value>) {
         "C15" => c15::run(ctx, replay),
         "C16" => c16::run(ctx, replay),
         "C17" => c17::run(ctx, replay),
+        "C18" => c18::run(ctx, replay),
         "C19" => c19::run(ctx, replay),
         "C20" => c20::run(ctx, replay),
         p => {
